@@ -47,7 +47,11 @@ func c19Specs() map[string][]byte {
 	if err := json.Indent(&s1w, s1.YAML(), "", "      "); err != nil {
 		s1w.Write(append(s1.YAML(), '\n', '\n'))
 	}
-	return map[string][]byte{"S0": s0.YAML(), "S1": s1.YAML(), "S2": s2.YAML(), "S3": s3.YAML(), "S1w": s1w.Bytes()}
+	// S1x: S1 plus one more component that renders last (every file of S1 is a byte prefix candidate)
+	s1x, _, op1x := cells.Base()
+	s1x.Comp.Schemas = []spec.NamedSchema{{Name: "Top", Schema: spec.Obj(spec.P("a", spec.T("string")))}, {Name: "Zzz", Schema: spec.Obj(spec.P("z", spec.T("string")))}}
+	op1x.Responses = []*spec.Response{{Status: "200", Desc: "r", Schema: spec.RefTo("Top")}}
+	return map[string][]byte{"S0": s0.YAML(), "S1": s1.YAML(), "S2": s2.YAML(), "S3": s3.YAML(), "S1w": s1w.Bytes(), "S1x": s1x.YAML()}
 }
 
 func c19Events(specNames []string) []genrun.Step {
@@ -147,9 +151,9 @@ func c19Judge(after, fresh, userBefore genrun.Tree) []c19diff {
 func C19(run *report.Run) {
 	env := NewEnv(true)
 	defer env.Close()
-	specNames := []string{"S0", "S1", "S3", "S1w"}
+	specNames := []string{"S0", "S1", "S3", "S1w", "S1x"}
 	if run.Tier == "thorough" {
-		specNames = []string{"S0", "S1", "S2", "S3", "S1w"}
+		specNames = []string{"S0", "S1", "S2", "S3", "S1w", "S1x"}
 	}
 	events := c19Events(specNames)
 	// the banner flag: the same events without the DO NOT EDIT header (files are goag's either way)
